@@ -130,6 +130,8 @@ class Engine:
         for l in out.splitlines():
             if l.startswith('<<"VIOL"'):
                 m = re.match(r'<<"VIOL", (\d+), "([^"]*)", "([^"]*)", "([^"]*)"(?:, (.*))?>>', l)
+                if not m:
+                    raise ToolError("unparsable VIOL record (monitors must print scalar details only): " + l[:200])
                 if m:
                     viol.append({"line": int(m.group(1)), "id": m.group(2), "property": m.group(3), "guard": m.group(4),
                                  "detail": m.group(5) or "", "trace": path})
@@ -165,6 +167,8 @@ class Engine:
                 elif ev == "reset":
                     s = e.get("s", {})
                     self.cov["scenario:%s/%s" % (s.get("framing", e.get("kind", "-")), s.get("faultKind", "-"))] += 1
+                elif ev == "proxy":
+                    self.cov["proxy:%s" % e.get("kind")] += 1
                 elif ev == "done":
                     self.cov["done:%s/%s" % (e.get("res"), (e.get("kind") or "").split(":")[0])] += 1
                 elif ev == "hop":
